@@ -62,6 +62,11 @@ def _weighted_geometric_mean(x, sample_weight=None, axis=None):
         Weighted geometric mean
     """
     check_consistent_length(x, sample_weight)
+    x = np.asarray(x)
+    sample_weight = np.asarray(sample_weight)
+    if sample_weight.ndim == 1 and x.ndim > 1:
+        # weights of shape (array.shape[0],) apply to every output column
+        sample_weight = np.broadcast_to(sample_weight[:, np.newaxis], x.shape)
     return np.exp(
         np.sum(sample_weight * np.log(x), axis=axis) / np.sum(sample_weight, axis=axis)
     )
